@@ -54,6 +54,7 @@ func runC05(c *Ctx) {
 	schemaEncRule(c, "C05.schemaenc")
 	rowCountRule(c, "C05.rowcount")
 	schemaAddRule(c, "C05.schemaadd")
+	keyInjRule(c, "C05.keyinj")
 }
 
 // siblingsRule: every pair of the row map goes through schema.add and the row is recorded under the returned index.
